@@ -48,6 +48,10 @@ def convert(beh, rng, name, opts, steer=True):
             out = 'ok' if a[1] == 'ok' else rng.choice(OUTS_ERR)
             steps.append(dict(a='hret', tag=tag(a[0]), out=out))
         elif act == 'DeliverS': steps.append(dict(a='gate', site='srv.deliver.lock', tag=tag(a[0]), soft=True))
+        elif act == 'SendBeginS':   # the delivery goes as far as into Channel.Send and stays there, the server's lock held
+            steps.append(dict(a='holdop', kind='send'))
+            steps.append(dict(a='gate', site='srv.deliver.lock', tag=tag(a[0]), soft=True))
+        elif act == 'SendEndS': steps.append(dict(a='unhold'))
         elif act == 'Stop': steps.append(dict(a='stop'))
         elif act == 'CancelRequest': steps.append(dict(a='cancel', id=str(a[0])))
         elif act == 'BaseCtxEnd': steps.append(dict(a='baseend'))
@@ -134,7 +138,7 @@ def directed(rng):
         add('baseend-%d' % v, {'conc': 1 + v % 2, 'basectx': True}, [S(call(1)), D, S(call(2), call(3)), D, dict(a='baseend'), D, hret('m1.1', 'ctxerr'), D,
                                                                     S(call(1)), D])
         # ... a notification that was waiting for a slot then never runs, and must not be waited for by anything behind it
-        add('baseend-note-%d' % v, {'conc': 1, 'basectx': True}, [S(call(1)), D, S(note()), D, dict(a='baseend'), D, hret('m1.1', 'ctxerr'), D,
+        add('baseend-note-%d' % v, {'conc': 1, 'basectx': True, 'recvUnblocks': v == 2}, [S(call(1)), D, S(note()), D, dict(a='baseend'), D, hret('m1.1', 'ctxerr'), D,
                                                                  S(note()), D, S(call(2)), D] + ([dict(a='stop'), D] if v == 0 else [dict(a='peerclose'), D] if v == 1 else [dict(a='stop'), D, dict(a='restart'), S(call(1)), D])
                                                                  )
         # a reply is on its way out (the goroutine inside Send holds the server's lock): a handler that returns meanwhile
@@ -242,9 +246,9 @@ def directed(rng):
 
 FAMILY = {
     # property: (quick design cfgs, thorough design cfgs, simulate cfgs, depth)
-    'C01': (['srv_c01'], ['srv_c01', 'srv_c03'], ['srv_c01', 'srv_c07', 'srv_c09'], 45),
-    'C03': (['srv_c03q'], ['srv_c03', 'srv_c03c1'], ['srv_c03', 'srv_c06', 'srv_c03c1', 'srv_c06c3'], 45),
-    'C06': (['srv_c06'], ['srv_c06', 'srv_c03', 'srv_c07b', 'srv_c06c3'], ['srv_c06', 'srv_c03', 'srv_c07b', 'srv_c06c3', 'srv_c03c1'], 45),
+    'C01': (['srv_c01'], ['srv_c01', 'srv_c03', 'srv_send'], ['srv_c01', 'srv_c07', 'srv_c09', 'srv_send'], 45),
+    'C03': (['srv_c03q'], ['srv_c03', 'srv_c03c1', 'srv_send'], ['srv_c03', 'srv_c06', 'srv_c03c1', 'srv_c06c3', 'srv_send'], 45),
+    'C06': (['srv_c06', 'srv_send'], ['srv_c06', 'srv_c03', 'srv_c07b', 'srv_c06c3', 'srv_send'], ['srv_c06', 'srv_c03', 'srv_c07b', 'srv_c06c3', 'srv_c03c1', 'srv_send'], 45),
     'C07': (['srv_c07q'], ['srv_c07', 'srv_c03', 'srv_c07b'], ['srv_c07', 'srv_c06', 'srv_c07b'], 45),
     'C08': (['srv_c08q', 'srv_live'], ['srv_c08', 'srv_c08u', 'srv_live'], ['srv_c08', 'srv_c08u', 'srv_c08r'], 50),
     'C09': (['srv_c09', 'srv_c09n'], ['srv_c09', 'srv_c09b', 'srv_c09r', 'srv_c09n'], ['srv_c09', 'srv_c09b', 'srv_c09r', 'srv_c09n'], 45),
